@@ -253,6 +253,28 @@ def check_mesh(t, faces, nv, case, engines=("scipy", "networkx"), do_split=True)
     ok, v = rd("body_count", lambda: int(m.body_count))
     if ok and v != len(o.vertex_components()):
         bad("body_count", v, len(o.vertex_components()))
+    # the module-level functions, called the way a user calls them (required arguments only, arrays of the
+    # dtype the library itself produces): same answers, and the arguments are left as they were
+    if len(o.faces):
+        E = np.array(o.edges, dtype=np.int64).reshape(-1, 2)
+        E0 = E.copy()
+        ok, v = rd("graph.is_watertight(edges)", lambda: tuple(bool(x) for x in graph.is_watertight(E)))
+        if ok and v != (o.watertight(), o.winding()):
+            bad("graph.is_watertight(edges)", v, (o.watertight(), o.winding()))
+        if not (E == E0).all():
+            t.violation("graph.is_watertight(edges): modifies the edge array it is given", case, {"before": E0, "after": E})
+        Fq = F.copy()
+        ok, v = rd("graph.face_adjacency(faces)", lambda: sorted(tuple(sorted(int(i) for i in r)) for r in graph.face_adjacency(faces=Fq)))
+        if ok and v != sorted((a[0], a[1]) for a in o.adj):
+            bad("graph.face_adjacency(faces)", v, sorted((a[0], a[1]) for a in o.adj))
+        if not (Fq == F).all():
+            t.violation("graph.face_adjacency(faces): modifies the face array it is given", case, {})
+        Fq = F.copy()
+        ok, v = rd("geometry.faces_to_edges(faces)", lambda: [tuple(int(i) for i in e) for e in trimesh.geometry.faces_to_edges(Fq)])
+        if ok and v != o.edges:
+            bad("geometry.faces_to_edges(faces)", v, o.edges)
+        if not (Fq == F).all():
+            t.violation("geometry.faces_to_edges(faces): modifies the face array it is given", case, {})
     # components through both engines
     fc = o.face_components()
     for eng in engines:
@@ -278,6 +300,25 @@ def check_mesh(t, faces, nv, case, engines=("scipy", "networkx"), do_split=True)
                     t.violation(f"split[{eng}]: parts are not the face-connected components [{cls}]", c, {"n_got": len(got), "n_want": len(want), "faces": o.faces})
             except Exception as e:
                 t.violation(f"split[{eng}]: raises {type(e).__name__} [{cls}]", c, {"exc": repr(e)[:300], "faces": o.faces})
+    # the same identities after the mesh was mirrored with every query already answered once (the face
+    # columns are re-ordered by the mirror; the aligned arrays must follow).  The dependent array is read first.
+    if len(o.faces):
+        try:
+            m.apply_transform(np.diag([-1.0, 1.0, 1.0, 1.0]))
+            o2 = Topo([tuple(int(i) for i in f) for f in np.asarray(m.faces)], nv)
+            inv = _aslist(m.edges_unique_inverse)
+            fu = _aslist(m.faces_unique_edges)
+            eu = [tuple(e) for e in _aslist(m.edges_unique)]
+            if [eu[i] for i in inv] != o2.edges_sorted:
+                t.violation(f"edges_unique[edges_unique_inverse] != edges_sorted after a mirror transform [{cls}]", case, {"faces": o2.faces})
+            elif [sorted(eu[i] for i in row) for row in fu] != [sorted(tuple(sorted(e)) for e in ((f[0], f[1]), (f[1], f[2]), (f[2], f[0]))) for f in o2.faces]:
+                t.violation(f"faces_unique_edges does not list the edges of each face after a mirror transform [{cls}]", case, {"faces": o2.faces})
+            elif [tuple(e) for e in _aslist(m.edges)] != o2.edges or _aslist(m.edges_face) != o2.edges_face:
+                t.violation(f"edges / edges_face are not those of the mirrored faces [{cls}]", case, {"faces": o2.faces})
+            elif sorted(tuple(sorted(int(i) for i in r)) for r in _aslist(m.face_adjacency)) != sorted((a[0], a[1]) for a in o2.adj):
+                t.violation(f"face_adjacency differs from direct counting after a mirror transform [{cls}]", case, {"faces": o2.faces})
+        except Exception as e:
+            t.violation(f"queries after a mirror transform raise {type(e).__name__} [{cls}]", case, {"exc": repr(e)[:300], "faces": o.faces})
     # angle defects on closed manifolds
     if o.closed_manifold():
         t.stats["closed_manifold_members"] += 1
